@@ -383,6 +383,11 @@ def _rollout_cfgs(quick, seed):
         out.append({"loop": "ppo", "E": E, "seed": seed + j, "learn_steps": ls, "rolls": 2 + j % 2, "gens": 2})
         names = (["agent_0", "agent_1"], ["agent_0", "agent_1", "other_0"], ["speaker_0", "listener_0"])[j % 3]
         out.append({"loop": "ippo", "E": (2, 3, 1, 2)[j % 4], "seed": seed + j, "learn_steps": ls, "rolls": 2 + j % 2, "gens": 2, "agents": names})
+    # Box action space with narrow bounds: most sampled actions are clipped by the loop before env.step(); learn() must still get the
+    # sampled action next to its log-probability (clause stored-action-is-sampled-action)
+    for j in range(1 if quick else 4):
+        E = (2, 3, 1, 2)[j % 4]
+        out.append({"loop": "ppo", "box": True, "E": E, "seed": seed + 200 + j, "learn_steps": ([3 * E, E], [2 * E, 4 * E])[j % 2], "rolls": 2, "gens": 2})
     # non-vectorised: IPPO on the raw ParallelEnv; the loop itself resets the finished environment inside the rollout
     # (train_on_policy on a raw gymnasium environment fails in stack_experiences on the unchanged tree, known finding F-C20-4: left out)
     for j in range(1 if quick else 4):
@@ -418,7 +423,7 @@ def _rollout_stage(ctx):
     agg = {}
     for t in traces:
         st = rollout.stats(t)
-        a = agg.setdefault(t["cfg"]["loop"] + ("" if t["cfg"].get("vec", True) else "-nonvec"), {})
+        a = agg.setdefault(t["cfg"]["loop"] + ("" if t["cfg"].get("vec", True) else "-nonvec") + ("-box" if t["cfg"].get("box") else ""), {})
         for k, x in st.items():
             a[k] = a.get(k, 0) + x
         ctx.case(("rollout", json.dumps(t["cfg"], sort_keys=True)), nontrivial=st["term_inner"] + st["trunc_inner"] + st["term_last"] + st["trunc_last"] > 0)
@@ -429,6 +434,8 @@ def _rollout_stage(ctx):
     if all(v.accepted for v in vs):          # vacuity: the accepted runs contain every kind of boundary the clauses talk about
         for loop, a in agg.items():
             need = ["learn", "term_inner", "trunc_inner", "term_last", "trunc_last", "cont_last", "envs_differ", "carry"] + (["agents_differ"] if loop == "ippo" else [])
+            if loop.endswith("-box"):         # the flag clauses are covered by the Discrete runs; here: rollouts were re-evaluated
+                need = ["learn", "reeval_rows"]
             if loop.endswith("-nonvec"):      # one environment; the loop's reset inside a rollout, followed by further steps of the same rollout
                 need = ["learn", "term_inner", "trunc_inner", "cont_last", "loop_reset", "loop_reset_inner"]
             missing = [k for k in need if a.get(k, 0) == 0]
@@ -454,6 +461,11 @@ def _rollout_stage(ctx):
                "resets the finished environment itself inside the rollout; next_state is then the terminal observation (masked by "
                "next_done = 1), which the clauses allow; train_on_policy on a plain gymnasium environment is not run (it fails in "
                "stack_experiences on the unchanged tree, known finding F-C20-4)")
+    ctx.assume("rollout stage, clause stored-action-is-sampled-action (PPO runs): inside the spy, before the real learn() and with the "
+               "torch RNG state restored afterwards, the stored (observation, action) rows are evaluated with the agent's own "
+               "evaluate_actions; the policy has not been updated since the rollout was collected, so the stored log-probabilities and "
+               "values must be reproduced (tolerance 1e-5); Box(-0.25, 0.25, (2,)) actions with the default unit-variance Gaussian policy "
+               "make the loop's clipping change most actions")
     ctx.assume("rollout stage: the flag of the first row of a rollout (always 0 in the loops, also right after an episode end) is "
                "not constrained: the recursion never reads it")
 
